@@ -11,7 +11,9 @@
 
    Waiter.Wait(ctx):  LEntry  ctx done?            -> false
                       LNext   sched.Next()         -> none: false
-                      LHave   tk <= cached lastNow -> true, else lastNow = time.Now(); tk <= lastNow -> true
+                      LHave   tk <= cached lastNow -> true (the clock is re-read unless the cached reading
+                              already shows more than MaxOverdueDuration of lateness),
+                              else lastNow = time.Now(); tk <= lastNow -> true
                       LSleep  select { timer(tk) -> true ; ctx.Done -> false }
    LCreate: the instance (id = started) is created / its goroutine launched.
 
@@ -53,6 +55,9 @@ Definition sinit (toks : list Z) (t0 : Z) : sstate := mkSS LEntry toks [] None t
 Definition set_spc (s : sstate) (p : lpc) : sstate :=
   mkSS p (rest s) (started s) (lastNow s) (clock s) (cancelled s).
 
+(* const MaxOverdueDuration = 2 * time.Second (same constant as Model/Waiter.v, bridged there) *)
+Definition max_overdue_ns : Z := 2000000000.
+
 Definition sstep (a : saction) (s : sstate) : option sstate :=
   match a with
   | STick d =>
@@ -76,7 +81,12 @@ Definition sstep (a : saction) (s : sstate) : option sstate :=
           let fresh := mkSS (if tk <=? clock s then LCreate tk else LSleep tk) (rest s) (started s)
                             (Some (clock s)) (clock s) (cancelled s) in
           match lastNow s with
-          | Some ln => if tk <=? ln then Some (set_spc s (LCreate tk)) else Some fresh
+          | Some ln =>
+              if tk <=? ln then
+                if ln - tk <? max_overdue_ns
+                then Some (mkSS (LCreate tk) (rest s) (started s) (Some (clock s)) (clock s) (cancelled s))
+                else Some (set_spc s (LCreate tk))
+              else Some fresh
           | None => Some fresh
           end
       | LSleep tk =>
